@@ -640,5 +640,30 @@ theorem stl_geometric_normal_counterexample : ¬ C07_geometric_normal_full natPa
 
 end mesh
 
+/-! ### NaN normals (what becomes of a facet normal whose mean is 0/0) -/
+
+theorem isZero32_of_nan_aux (w : W32) (h : isNaN32 w = true) : isZero32 w = false := by
+  have h' : 0x7f800000 < w.toNat % 0x80000000 := by simpa [isNaN32] using h
+  have hm : (w &&& 0x7fffffff#32).toNat = w.toNat % 0x80000000 := by
+    rw [BitVec.toNat_and]
+    exact Nat.and_two_pow_sub_one_eq_mod w.toNat 31
+  unfold isZero32
+  apply Bool.eq_false_iff.mpr
+  intro e
+  have : w &&& 0x7fffffff#32 = 0#32 := by simpa using e
+  rw [this] at hm
+  simp at hm
+  omega
+
+/-- a stored facet normal with a NaN component is not "zero": `ReadMesh` keeps it (widened) instead of
+    falling back to the geometric normal — this is what happens to the NaN that `WriteMesh` stores when the
+    corner normals cancel (0/0) -/
+theorem nan_normal_kept {α : Type} (P : Params α) (t : Tri)
+    (h : isNaN32 t.n.x = true ∨ isNaN32 t.n.y = true ∨ isNaN32 t.n.z = true) : triNormal P t = t.n.map P.up := by
+  have : isZeroV t.n = false := by
+    unfold isZeroV
+    rcases h with h | h | h <;> simp [isZero32_of_nan_aux _ h]
+  simp [triNormal, this]
+
 end StlL
 end PolyVerif
